@@ -30,7 +30,8 @@ Representation choices (each is checked by the correspondence run, none is a rep
   truthiness (`metadata.get('no-write', False)`) and its identity matter.
 * `time.time()` is an input of every operation (`now`); Python floats holding the virtual clock's
   integer seconds are modelled as `Nat`.
-* `first_time` of `Deleter.modify` is `True` (one writer, no UncoordinatedWriteError retry).
+* `deleterModify` is `Deleter.modify` with `first_time = True` (what the single-writer histories run);
+  `deleterModifyFT` carries the `first_time` argument and `retryLoop` is the UncoordinatedWriteError retry loop.
 * A directory is identified by a number; two handles have the same number iff their write URIs are
   equal (what `move_child_to` compares).  `Handle.readonly` is `is_readonly()` of the handle.
 -/
